@@ -25,7 +25,7 @@ COMPONENTS = ["Server", "ThreadPool", "AsyncServer", "QueuedResource", "QueueDri
 
 POLICIES = ["fifo", "lifo", "prio", "codel", "red", "alifo", "fifo-cap"]           # old cfg shape ("chain")
 BANK = ["fifo", "fifo-cap", "lifo", "prio", "prio-cap", "codel", "red", "alifo", "deadline", "fair", "wfq"]
-CONC = ["int", "fixed", "dynamic", "weighted"]
+CONC = ["int", "fixed", "dynamic", "weighted", "weighted"]
 
 
 def _red(rng):
@@ -60,8 +60,10 @@ def gen_cfg(rng):
         "dyn": {"initial": rng.randint(1, 3), "min": 1, "max": rng.choice([None, 3, 6]),
                 "changes": [[dur_ms(rng, 200, 2500), rng.choice(["up", "down", "set1", "set4"])]
                             for _ in range(rng.randint(1, 4))]},
-        "weighted_cap": rng.choice([1, 3, 6]),
-        "max_weight": rng.randint(1, 3),
+        # WeightedConcurrency: requests carry weights up to max_weight — heavier than what is left while a unit is free,
+        # sometimes heavier than the whole pool
+        "weighted_cap": rng.choice([1, 3, 6, 10]),
+        "max_weight": rng.choice([1, 2, 3, 4, 6, 12]),
         "flows": rng.randint(1, 6),
         "burst": rng.choice([1, 1, 2, 5]),               # same-instant copies of every arrival
         "red": _red(rng),
@@ -88,8 +90,16 @@ def gen_cfg_wide(rng):
     cfg = gen_cfg(rng)
     cfg.update({"mode": "bank", "policies": list(BANK), "load": rng.choice(["over", "over", "near"]),
                 "end": max(cfg["end"], 3.0)})
-    cfg["red"]["weight"] = rng.choice([0.05, 0.2, 0.5])
+    # RED: thresholds far apart and a deep queue, so that under sustained overload the average queue length sits in the
+    # probabilistic-drop band (between the thresholds) instead of saturating above max_threshold (forced drops only)
+    lo = rng.choice([2, 3, 5])
+    cfg["red"] = {"min": lo, "max": lo + rng.choice([30, 40, 60]), "p": rng.choice([0.1, 0.3, 0.5]), "cap": None,
+                  "weight": rng.choice([0.05, 0.2, 0.5])}
+    cfg["conc_model"] = rng.choice(["weighted", "int", "int"])      # weighted: heavy requests are turned away, no backlog
+    cfg["weighted_cap"], cfg["max_weight"] = rng.choice([[3, 3], [6, 4], [10, 6], [3, 6]])
     cfg["async"]["on"] = True
+    # enough arrivals for the averaged queue length to leave the transient (the bank caps the total copy rate anyway)
+    cfg["sources"] = [{"rate": rng.choice([40, 80]), "poisson": rng.random() < 0.5} for _ in range(rng.randint(1, 2))]
     return cfg
 
 
@@ -259,7 +269,7 @@ def _build_bank(cfg, seed):
     rates = [r * scale for r in rates]
     per_server = sum(rates) * burst                 # arrivals per second at each server
     svc = cfg["bank_svc_ms"] / 1000.0
-    conc0 = cfg["bank_conc"] if cfg["conc_model"] in ("int", "fixed") else 1
+    conc0 = cfg["bank_conc"] if cfg["conc_model"] in ("int", "fixed", "weighted") else 1
     # load regime by service time: utilisation 0.9 ("near") or 2.5 ("over": sustained overload for the whole run)
     if cfg.get("load") == "near":
         svc = round(0.9 * conc0 / per_server, 4)
@@ -321,7 +331,11 @@ def _build_bank(cfg, seed):
                                    **_opt(max_limit=None if d["max"] is None else max(d["max"], d["initial"])))
             models.append(m)
             return m
-        return WeightedConcurrency(cfg["weighted_cap"])
+        # the weighted pool serves the plain policies only: a request heavier than the free capacity is turned away at
+        # dispatch, which would empty the queues the adaptive policies (RED, CoDel, …) need to be loaded
+        if cfg["policies"][i] in ("fifo", "fifo-cap", "lifo", "prio", "prio-cap"):
+            return WeightedConcurrency(cfg["weighted_cap"])
+        return cfg["bank_conc"]
 
     servers = []
     for i, kind in enumerate(cfg["policies"]):
